@@ -24,6 +24,40 @@ def thr_cfg(threads, programs, yield_, prov, invs=("CacheCoherent", "LruCoherent
                      + ["PROPERTY Immutable", "CHECK_DEADLOCK FALSE"]) + "\n"
 
 
+def thread_executions(out, sc, tier, seed, prop, msrc=None, scale=1.0):
+    """R3: thread executions (stress / scheduled / systematic / model schedules) validated by TraceMem under `prop`"""
+    nstress, nsched = (12, 40) if tier == "quick" else (120, 1500)
+    nstress, nsched = max(2, int(nstress * scale)), max(4, int(nsched * scale))
+    shards = []
+
+    def one(args):
+        be, mode, k, n = args
+        d = sc.work / f"thr-{prop}-{be}-{mode}-{k}"
+        d.mkdir()
+        env = {"VERIF_SYS_STRIDE": "3" if tier == "quick" else "1"}
+        if msrc is not None:
+            env["VERIF_MODEL_SCHEDULES"] = str(msrc)
+        r = subprocess.run([PY, "-X", "utf8", "-m", "vlib.threadrun", str(d), str(seed * 100 + k), mode, str(n)],
+                           env=sc.env(be, env), cwd=str(sc.work), capture_output=True, text=True, timeout=3600)
+        if r.returncode != 0:
+            raise MachineryFailure(f"threadrun failed rc={r.returncode}: {r.stderr[-2000:]}")
+        return sorted(d.glob("thr-*.json"))
+    npairs = 1000
+    jobs = [(be, "stress", k, nstress) for be in ("c", "py") for k in range(3)] + \
+           [(be, "sched", k, nsched) for be in ("c", "py") for k in range(4)] + \
+           [(be, "sys1", k, npairs) for be in ("c", "py") for k in range(4)] + \
+           ([(be, "model", 0, 0) for be in ("c", "py")] if msrc is not None else [])
+    with cf.ThreadPoolExecutor(max_workers=12) as ex:
+        for paths in ex.map(one, jobs):
+            shards += paths
+    results = validate_shards("TraceMem", trace_cfg(prop), shards, sc.work, heap="3g")
+    recs = load_records(shards)
+    if sum(r.records for r in results) != len(recs):
+        raise MachineryFailure("TLC consumed a different number of events than were recorded")
+    out.add_trace_results("thread-executions", results, recs)
+    out.extra["executions"] = len(shards)
+
+
 def run(out, sc, tier, seed):
     if tier == "quick":
         res = model_check("YarlThreads", thr_cfg("{1, 2}", "ProgramsDef", "FALSE", "FALSE"), sc.work)
@@ -58,30 +92,4 @@ def run(out, sc, tier, seed):
     msrc = sc.work / "model-schedules.json"
     msrc.write_text(_json.dumps(behs))
     out.models.append({"model": "YarlThreads[-simulate]", "behaviours": len(behs), "what": "TLC-generated schedules, replayed on the real library"})
-    nstress, nsched = (12, 40) if tier == "quick" else (120, 1500)
-    shards = []
-
-    def one(args):
-        be, mode, k, n = args
-        d = sc.work / f"thr-{be}-{mode}-{k}"
-        d.mkdir()
-        r = subprocess.run([PY, "-X", "utf8", "-m", "vlib.threadrun", str(d), str(seed * 100 + k), mode, str(n)],
-                           env=sc.env(be, {"VERIF_SYS_STRIDE": "3" if tier == "quick" else "1", "VERIF_MODEL_SCHEDULES": str(msrc)}), cwd=str(sc.work),
-                           capture_output=True, text=True, timeout=3600)
-        if r.returncode != 0:
-            raise MachineryFailure(f"threadrun failed rc={r.returncode}: {r.stderr[-2000:]}")
-        return sorted(d.glob("thr-*.json"))
-    npairs = 1000
-    jobs = [(be, "stress", k, nstress) for be in ("c", "py") for k in range(3)] + \
-           [(be, "sched", k, nsched) for be in ("c", "py") for k in range(4)] + \
-           [(be, "sys1", k, npairs) for be in ("c", "py") for k in range(4)] + \
-           [(be, "model", 0, 0) for be in ("c", "py")]
-    with cf.ThreadPoolExecutor(max_workers=12) as ex:
-        for paths in ex.map(one, jobs):
-            shards += paths
-    results = validate_shards("TraceMem", trace_cfg("C20"), shards, sc.work, heap="3g")
-    recs = load_records(shards)
-    if sum(r.records for r in results) != len(recs):
-        raise MachineryFailure("TLC consumed a different number of events than were recorded")
-    out.add_trace_results("thread-executions", results, recs)
-    out.extra["executions"] = len(shards)
+    thread_executions(out, sc, tier, seed, "C20", msrc)
